@@ -48,6 +48,16 @@ def run(ctx):
         n += 1
         if isinstance(v, np.ma.MaskedArray):
             bad.append('mask-dropper fact %s does not hold' % k)
+    # further numpy functions that return their masked argument without its mask
+    for k, v in {'resize': np.resize(m, (4, 3, 2)), 'append': np.append(m, m), 'insert': np.insert(m.ravel(), 0, 1.), 'delete': np.delete(m.ravel(), 0),
+                 'pad': np.pad(m.ravel(), 1), 'broadcast_to': np.broadcast_to(m, (2,) + m.shape)}.items():
+        n += 1
+        if np.ma.getmaskarray(v).any():
+            bad.append('mask-dropper fact %s does not hold' % k)
+    # scalar extraction from a masked 0-d array returns the hidden data value
+    n += 1
+    if np.ma.masked_array(5., mask=True).item() != 5.0:
+        bad.append('masked 0-d .item() fact does not hold')
     # np.isscalar classification used by C02
     n += 3
     if not (np.isscalar(3) and np.isscalar(np.int64(3)) and not np.isscalar(slice(1, 2)) and not np.isscalar([1, 2]) and not np.isscalar(np.array([1]))):
